@@ -452,6 +452,9 @@ pub fn run_random<P: RandomProp>(prop_id: &str, env: &Env, known: &Known) -> Sub
                         cases: per as u32,
                         failure_persistence: None,
                         max_shrink_iters: P::max_shrink_iters(),
+                        // a wall-clock cap on shrinking only (never on the verdict): expensive cases must not turn a
+                        // detected failure into a run that takes hours to report it
+                        max_shrink_time: 20_000,
                         max_global_rejects: 1 << 20,
                         rng_algorithm: RngAlgorithm::ChaCha,
                         ..Config::default()
